@@ -89,10 +89,13 @@ def _pool():
 
     return {
         "plain": lambda sh: rtf.RTFDocument(df=DF2()),
-        "red": lambda sh: rtf.RTFDocument(df=DF2(), rtf_body=rtf.RTFBody(text_color="red"), rtf_title=rtf.RTFTitle(text="T0")),
+        # red text AND a red top border: border colours resolve through the document's own colour table too
+        "red": lambda sh: rtf.RTFDocument(df=DF2(), rtf_body=rtf.RTFBody(text_color="red", border_top="single", border_color_top="red"),
+                                          rtf_title=rtf.RTFTitle(text="T0")),
         # paginated, own margins (page-break blocks restate them), blue/green cells
         "paged": lambda sh: rtf.RTFDocument(df=DF2(), rtf_page=rtf.RTFPage(nrow=3, margin=[0.5, 0.6, 0.7, 0.8, 0.4, 0.3]),
-                                            rtf_body=rtf.RTFBody(text_color=[["blue", "green"]]), rtf_footnote=rtf.RTFFootnote(text="F0")),
+                                            rtf_body=rtf.RTFBody(text_color=[["blue", "green"]], border_top="single", border_color_top="red"),
+                                            rtf_footnote=rtf.RTFFootnote(text="F0")),
         # table footnote and source on every page, one closing style empty: a per-page border override must not persist
         "fnall": lambda sh: rtf.RTFDocument(df=DF2(), rtf_page=rtf.RTFPage(nrow=4, page_footnote="all", page_source="all"),
                                             rtf_body=rtf.RTFBody(border_last=""),
